@@ -278,7 +278,9 @@ pub fn borrowed_faults(ops: &dyn SeqOps, cx: &mut Cx, i: usize, want: &Val, srcs
                 let npoints = probe.log.len();
                 for p in 0..npoints {
                     let (_, is_flush, len) = probe.log[p];
-                    let alts: &[u8] = if is_flush { &[0] } else if len == 0 { &[2, 4] } else { &[0, 1, 2, 3, 4] };
+                    // alternative 5: the writer unwinds instead of returning (the borrowed data must
+                    // survive the unwinding too)
+                    let alts: &[u8] = if is_flush { &[0] } else if len == 0 { &[2, 4, 5] } else { &[0, 1, 2, 3, 4, 5] };
                     for a in alts {
                         cx.evals += 1;
                         cx.transitions += 1;
@@ -289,6 +291,7 @@ pub fn borrowed_faults(ops: &dyn SeqOps, cx: &mut Cx, i: usize, want: &Val, srcs
                         let hard = w.hard_fail;
                         let mut bad: Vec<&str> = vec![];
                         match &r {
+                            Out::Panic(m) if *a == 5 && m.contains(WRITER_PANIC) => {}
                             Out::Panic(_) => bad.push("panic"),
                             Out::Ok(_) => { if hard { bad.push("success-despite-failure"); } else if !(w.accepted == reference || vcore::checks::masked_eq(&w.accepted, &reference, &ops.mask(i, ctx))) { bad.push("bytes-differ-from-fault-free"); } }
                             Out::Err(e) if e == "WriteError" => { if !hard { bad.push("error-without-failure"); } }
@@ -398,7 +401,8 @@ pub fn c16(ops: &dyn SeqOps, cx: &mut Cx) {
         // lying iterators
         if ops.has_iter() {
             let b = match &want { Val::Seq(v) => v.len(), _ => 0 };
-            for a in 0..=4usize {
+            // announced lengths 0..4 and lengths no real sequence could have
+            for a in (0..=4usize).chain([isize::MAX as usize, (isize::MAX as usize) + 1, usize::MAX, 1usize << 60, 1usize << 32]) {
                 for ctx in [Ctx::Alone, Ctx::G1, Ctx::GEOne, Ctx::Nested] {
                     cx.evals += 1;
                     cx.transitions += 1;
